@@ -1205,3 +1205,18 @@ func first(a, _ []byte) []byte { return a }
 //@ func {topK,bottomK}$1
 //@   requires true
 //@   ensures[pure] frame()
+
+//@ func topK
+//@   inline
+//@ func bottomK
+//@   inline
+
+//@ func (*{alpha,unsigned,signed,float,compound,collation}SortedTree[K,V]).TopK
+//@   opt kind $KIND
+//@   requires t != nil
+//@   ensures[pure] frame()
+
+//@ func (*{alpha,unsigned,signed,float,compound,collation}SortedTree[K,V]).BottomK
+//@   opt kind $KIND
+//@   requires t != nil
+//@   ensures[pure] frame()
